@@ -64,6 +64,26 @@ def contracts():
           ensures={"kept": "self.g_registered is mdata", "n": "self.g_register_calls == old(self.g_register_calls) + 1"}, returns="none",
           why="FileRegistrar.register_complete(mdata) is under its own contract above (one manifest entry per change)")
     cs[-1].variant = "as_a_callee"
+    # ---- where a name's files live (the [A] interfaces above are what add_named_file sees; these are the bodies)
+    cfh = {**CF, "FileManager": {**CF["FileManager"], "_csvpaths": "obj:CsvPaths"}, "CsvPaths": {**CF.get("CsvPaths", {}), "_config": "obj:Config"},
+           "Config": {**CF.get("Config", {}), "_inputs_files_path": "str"}}
+    D = "self._csvpaths._config._inputs_files_path"
+    inl_h = ["FileManager.named_files_dir", "CsvPaths.config", "Config.inputs_files_path", "FileManager.named_file_home"]
+    cs.append(Contract(
+        target=f"{FM}::FileManager.named_file_home", variant="body", types={"name": "str"},
+        ensures={"the_names_own_directory_under_the_configured_inputs_directory": f"result == path_join({D}, name)"},
+        inline=inl_h, class_fields=cfh, macros=MACROS, returns="str", native={"skip": True},
+        property_clauses={"the_names_own_directory_under_the_configured_inputs_directory": "C11"}))
+    p_nomark = "(path if path.find('#') == -1 else path[0:path.find('#')])"
+    fname_h = f"({p_nomark} if {p_nomark}.rfind('/') == -1 else {p_nomark}[{p_nomark}.rfind('/') + 1:])"
+    cs.append(Contract(
+        target=f"{FM}::FileManager.assure_file_home", variant="body", types={"name": "str", "path": "str"},
+        ensures={"a_directory_named_after_the_source_file_inside_the_names_directory": f"result == path_join(path_join({D}, name), {fname_h})"},
+        covers={"a_sheet_mark_is_not_part_of_the_name": "'#' in path and '/' in path"},
+        inline=inl_h, class_fields=cfh, macros=MACROS, returns="str", native={"skip": True},
+        property_clauses={"a_directory_named_after_the_source_file_inside_the_names_directory": "C11"},
+        doc={"a_directory_named_after_the_source_file_inside_the_names_directory": "C11 (anchor): versions of one source file name under one name share a directory, "
+                                                                                   "<inputs>/<name>/<source file name>; different names never share one"}))
     fname = "(path if path.rfind('/') == -1 else path[path.rfind('/') + 1:])"
     cs.append(Contract(
         target=f"{FM}::FileManager._copy_in", variant="local_file", types={"path": "str", "home": "str"},
